@@ -14,7 +14,8 @@ CONFIG = dict(
          "damage, length bumps) and delivered in 1-3 chunks under a budgeted allocator: every allocation must satisfy "
          "live+request <= 1024*bytes_delivered_so_far + 327680, else it is refused and recorded. bulk: large VALID inputs (one payload of "
          "40K/140K/400K units in the root, an extension addition or alternative; DER/OER/UPER/XER; also decoded as an older type version that skips "
-         "the payload) in 16K deliveries under 24*bytes_delivered + 327680. stack templates also nest inside skipped unknown additions / ANY. evaluations = decode runs; "
+         "the payload) in 16K deliveries, from a slow peer (1021+1022 bytes) and in ONE call under 24*bytes_delivered + 327680; the one-call runs execute on the painted 8 MB stack: "
+         "exhaustion or a high-water mark above 256 KiB for such flat input is a violation (stack-growth). stack templates also nest inside skipped unknown additions / ANY. evaluations = decode runs; "
          "non-trivial/distinct = distinct hostile heap cases (program,type,syntax,hostile move,stream)",
     assumptions=["plain -O1 build so that frame sizes are the shipped ones; memory errors are C04's business",
                  "heap budget constants A=1024 bytes/byte, B=320 KiB (measured: 153 bytes/byte and 16.8 KB for inputs <= 64 bytes; B also covers one 64K-unit PER fragment of 4-octet characters, 256 KiB, which asn1c reserves before reading it - a constant, not a function of the peer's length prefix) (DESIGN 5.5, 15.2)",
